@@ -133,8 +133,11 @@ pub fn run_writer(cfg: WCfg, end: WEnd, ops: &[WOp]) -> Result<WDone, Failure> {
     let e = cfg.e;
     let wb = cfg.w.bits();
     let tag = format!("w{}", wb);
+    // a wrapper created in mid-stream: the bare writer already holds these bits
+    let prefix: usize = if cfg.wrap == WWrap::CountMid { 3 } else { 0 };
     // model first (sizes the fixed slice, D11)
     let mut full = BitVec::new();
+    full.push_field(0b101, prefix, e);
     let mut rets = Vec::with_capacity(ops.len());
     for op in ops {
         rets.push(model_wop(op, e, wb, &mut full));
@@ -154,6 +157,7 @@ pub fn run_writer(cfg: WCfg, end: WEnd, ops: &[WOp]) -> Result<WDone, Failure> {
     let run = guarded(|| {
         with_writer(cfg, cap_words, end, &mut |w, rec| {
             let mut m = BitVec::new();
+            m.push_field(0b101, prefix, e);
             for (i, op) in ops.iter().enumerate() {
                 let name = wop_name(op);
                 let before = m.len();
@@ -195,10 +199,10 @@ pub fn run_writer(cfg: WCfg, end: WEnd, ops: &[WOp]) -> Result<WDone, Failure> {
                     }
                 }
                 if let Some(c) = w.counter() {
-                    if c != m.len() - count_padding(ops, i, e, wb) {
+                    if c != m.len() - prefix - count_padding(ops, i, e, wb, prefix) {
                         fail = Some(Failure::new(
                             format!("count_w/{}", name),
-                            format!("after op #{} {:?}: bits_written = {}, bits actually written = {} on {}", i, op, c, m.len() - count_padding(ops, i, e, wb), cfg.name()),
+                            format!("after op #{} {:?}: bits_written = {}, bits actually written = {} on {}", i, op, c, m.len() - prefix - count_padding(ops, i, e, wb, prefix), cfg.name()),
                         ));
                         return;
                     }
@@ -274,8 +278,9 @@ pub fn run_writer(cfg: WCfg, end: WEnd, ops: &[WOp]) -> Result<WDone, Failure> {
 
 /// Number of zero-padding bits the model inserted for flushes up to and including op `i`
 /// (a counting wrapper counts bits written, not padding).
-fn count_padding(ops: &[WOp], i: usize, e: En, wb: usize) -> usize {
+fn count_padding(ops: &[WOp], i: usize, e: En, wb: usize, prefix: usize) -> usize {
     let mut m = BitVec::new();
+    m.push_field(0b101, prefix, e);
     let mut pad = 0;
     for op in &ops[..=i] {
         if matches!(op, WOp::Flush | WOp::IoFlush) {
